@@ -155,6 +155,28 @@ def run(ck, prog, ctx):
                 continue
         ck.ob("SIBLING", "site-present/" + need, present, "membership predicate located in %s" % need if present else "coverage-floor: no membership test found in %s" % need)
 
+    # ------------------------------------------------------------------ the modifier filter of sub_ontology INTERSECTS: an emptiness test in one of its
+    # closures that reads the modifier roots and a term's ancestors is taken of a `&` (or uses contains); with `|` between the two groups the test
+    # is false for every term and the filter keeps nothing / everything
+    sub_f = prog.body(SUB)
+    if sub_f is not None:
+        for cb_ in prog.family(sub_f):
+            if cb_.kind != "Closure":
+                continue
+            for ebi_, et_ in cb_.calls():
+                if et_.callee.method != "is_empty" or not et_.args:
+                    continue
+                at_ = pvn.of_operand(cb_, et_.args[0])
+                reads_roots = any(a_[0] == "call" and a_[1].endswith("Ontology::modifier") for a_ in at_) or "modifier" in field_names(at_, "::Ontology")
+                reads_term = bool(term_fields(at_) & {"all_parents", "parents"}) or any(a_[0] == "call" and re.search(r"::all_parents$|::all_parent_ids$", a_[1]) for a_ in at_)
+                if not (reads_roots and reads_term):
+                    continue
+                g_and = any(a_[0] == "call" and a_[3] == cb_.id and "BitAnd" in a_[2] and "HpoGroup" in a_[2] for a_ in at_)
+                g_or_groups = any(a_[0] == "call" and a_[3] == cb_.id and "BitOr" in a_[2] and "HpoGroup" in a_[2] and "HpoTermId>" not in a_[2] for a_ in at_)
+                if g_or_groups and not g_and:
+                    ck.ob("SIBLING", "modifier-filter/operator/%s" % cb_.short, False, "%s tests the emptiness of the UNION of a term's ancestors with the modifier roots (`|` between the two groups, no `&`): the test says nothing about membership" % cb_.short, where=cb_.where(et_.line))
+                elif g_and:
+                    ck.ob("SIBLING", "modifier-filter/operator/%s" % cb_.short, True, "%s tests the emptiness of an intersection with the modifier roots" % cb_.short, where=cb_.where(et_.line))
     # ------------------------------------------------------------------ KIND on the re-annotation loops
     sub = prog.body(SUB)
     if not ck.anchor("KIND", "Ontology::sub_ontology", sub):
